@@ -141,6 +141,16 @@ def run(ctx: Ctx) -> Result:
                                     ('plugin: GET_MESSAGE', op('GET_MESSAGE') + bytes([flag]), 1)):
             plug_expect[len(cases)] = ','.join(['1'] * n_ext)
             cases.append((what, cfgp, cache, script, 'T' if 'GET_MESSAGE' not in what else ('stack', (msg.hex() or 'e'))))
+    # every single bit of one signature and of its key (not left to the luck of the draw)
+    sk_, pk_ = keys.sks[1], keys.pks[1]
+    c_ = {'sigfield1': b'every-bit', 'sigfield3': b'xyz'}
+    sig_ = sk_.sign(ref_msg(c_, 0)).signature
+    for j_ in range(512):
+        v_ = bytearray(sig_); v_[j_ // 8] ^= 1 << (j_ % 8)
+        cases.append((f'bit {j_} of the signature flipped', cfg, c_, P(bytes(v_)) + P(pk_) + op('CHECK_SIG') + b'\x00', 'F'))
+    for j_ in range(256):
+        v_ = bytearray(pk_); v_[j_ // 8] ^= 1 << (j_ % 8)
+        cases.append((f'bit {j_} of the key flipped', cfg, c_, P(sig_) + P(bytes(v_)) + op('CHECK_SIG') + b'\x00', 'F'))
     # wrong lengths: error, never true
     sk, pk = keys.sks[0], keys.pks[0]
     sig = sk.sign(b'').signature
